@@ -57,7 +57,7 @@ def main():
         for p in built:
             r = sh(os.path.join(verif, "bin/nfpmcheck"), "-verif", verif, "-out", tmp, "-repo", wt, "-property", p, "-tier", "quick")
             if r.returncode != 0:
-                fired[p] = [l.strip() for l in r.stdout.splitlines() if "rule=" in l][:4]
+                fired[p] = [l.strip() for l in r.stdout.splitlines() if l.startswith("  rule=")][:4]
         res["checks_fired"] = fired
         res["caught_by_own_property"] = prop in fired
         ok = res["demo_passes_pristine"] and res["suite_passes_with_patch"] and res["demo_fails_with_patch"]
